@@ -379,7 +379,7 @@ def store_models(store_key="$store"):
 
     return [(r"Pager::read_page$", m_read_page), (r"Pager::write_page$", m_write_page),
             (r"<std::ops::Range<usize> as Iterator>::collect::<Vec<usize>>$", m_range_collect),
-            (r"slice::<impl \[usize\]>::binary_search_by::<", m_binary_search_by),
+            (r"slice::<impl \[.*\]>::binary_search_by::<", m_binary_search_by),
             (r"^<\(&\[u8\], u64\) as Ord>::cmp$", m_tuple_cmp)]
 
 
@@ -562,7 +562,269 @@ def run_insert_scan(npairs):
     return run
 
 
+def run_capacity_boundary(tier_deltas):
+    """Leaf holding one very large cell, so that the free gap is small and known; then an insert whose cell length sits at
+    free-3 .. free+1 bytes. Whatever the space check answers, the page must stay decodable: Ok => both pairs read back in order,
+    Err => the stored pair is untouched."""
+    def run(mf, tier):
+        from ..bytesmodel import lex_lt
+        call.queries, call.solver_time, call.inlined = 0, 0.0, set()
+        st = State()
+        a, t = z3.BitVec("a", 8), z3.BitVec("t", 8)
+        pa, pn = z3.BitVec("p_a", 64), z3.BitVec("p_new", 64)
+        L1 = 8100
+        page = new_page(st, "cap")
+        ex, paths = call(mf, IMPL + r"init_leaf\(", [page], st)
+        s = ok_paths(paths, "init_leaf")[0].st
+        big = [a] + [bv(0, 8)] * (L1 - 1)
+        s.env["$bigkey"] = PyVec(big)
+        ex, paths = call(mf, IMPL + r"leaf_insert_at\(", [page, bv(0, 64), Ref("$bigkey"), pa], s)
+        ps_ = [p for p in ok_paths(paths, "leaf_insert_at") if isinstance(p.ret, Enum) and p.ret.variant == "Ok"]
+        if len(ps_) != 1:
+            raise Unsupported("building the nearly full leaf did not yield one successful path")
+        s = ps_[0].st
+        ex, paths = call(mf, IMPL + r"free_space\(", [page], s)
+        fr = ok_paths(paths, "free_space")
+        free = z3.simplify(fr[0].ret.fields[0])
+        if len(fr) != 1 or not z3.is_bv_value(free):
+            raise Unsupported("free_space is not a constant on the constructed page")
+        free = free.as_long()
+        failed, n, accepted, refused = [], 0, [], []
+        try:
+            for delta in tier_deltas:
+                L2 = free + delta - 9            # cell = 1-byte length prefix + key + 8-byte payload (key < 128 bytes)
+                if not (1 <= L2 < 128):
+                    raise Unsupported("boundary key length %d outside the 1-byte length prefix range" % L2)
+                newkey = [t] + [bv(0, 8)] * (L2 - 1)
+                s1 = s.fork()
+                s1.env["$newkey"] = PyVec(newkey)
+                ex, paths = call(mf, IMPL + r"leaf_lower_bound\(", [page, Ref("$newkey")], s1)
+                for p in ok_paths(paths, "leaf_lower_bound"):
+                    for j in (0, 1):
+                        if not ex.feasible(p.pc, p.ret.fields[0] == j):
+                            continue
+                        s2 = p.st.fork()
+                        s2.pc.append(p.ret.fields[0] == j)
+                        ex2, paths2 = call(mf, IMPL + r"leaf_insert_at\(", [page, bv(j, 64), Ref("$newkey"), pn], s2)
+                        for p2 in ok_paths(paths2, "leaf_insert_at (page nearly full)"):
+                            n += 1
+                            ok = isinstance(p2.ret, Enum) and p2.ret.variant == "Ok"
+                            (accepted if ok else refused).append(delta)
+                            want = [(big, pa)]
+                            if ok:
+                                want.insert(j, (newkey, pn))
+                            cnt = cell_count_of(mf, page, p2.st)
+                            if not ex2.entails(p2.pc, cnt == len(want)):
+                                failed.append("an insert into a nearly full leaf %s but the cell count is not %d" % ("succeeds" if ok else "is refused", len(want)))
+                                continue
+                            for s3, cells in read_cells(mf, page, p2.st, len(want)):
+                                for pos, ((kb, pv), (wk, wp)) in enumerate(zip(cells, want)):
+                                    same = len(kb) == len(wk) and ex2.entails(s3.pc, z3.And([x == y for x, y in zip(kb, wk)] + [pv == wp]))
+                                    if not same:
+                                        failed.append("an insert into a nearly full leaf (new cell = free space %+d bytes) %s and cell %d no longer reads back "
+                                                      "as the stored pair" % (delta, "is accepted" if ok else "is refused", pos))
+                                if ok and not ex2.entails(s3.pc, z3.Not(lex_lt(cells[1][0], cells[0][0]))):
+                                    failed.append("leaf keys are not sorted after an insert into a nearly full leaf")
+        except AssertionError as e:
+            failed.append("insert into a nearly full leaf: " + str(e))
+        res = {"paths": n, "queries": call.queries, "solver_time_s": round(call.solver_time, 3),
+               "sample": ["leaf with one %d-byte key (free gap %d bytes), new cell length = gap%s; accepted at %s, refused at %s"
+                          % (L1, free, "/".join("%+d" % d for d in tier_deltas), sorted(set(accepted)), sorted(set(refused)))],
+               "functions": ["index::btree::Page::{free_space, leaf_lower_bound, leaf_insert_at, shift_slots_right, leaf_cell_key_and_payload} + helpers"]}
+        if failed:
+            res.update({"status": "fail", "failed": sorted({re.sub(r"\(new cell = free space [-+]\d+ bytes\) ", "", f) for f in failed}),
+                        "reason": "; ".join(sorted(set(failed)))[:400]})
+        else:
+            res["status"] = "pass"
+        return res
+    return run
+
+
+def run_capacity_boundary_internal(tier_deltas):
+    """Same boundary as run_capacity_boundary for internal pages: (separator key, right child) cells and the leftmost child."""
+    def run(mf, tier):
+        call.queries, call.solver_time, call.inlined = 0, 0.0, set()
+        st = State()
+        a, t = z3.BitVec("a", 8), z3.BitVec("t", 8)
+        ca, cn = z3.BitVec("child_a", 64), z3.BitVec("child_new", 64)
+        L1 = 8100
+        page = new_page(st, "icap")
+        ex, paths = call(mf, IMPL + r"init_internal\(", [page, page_id(7)], st)
+        s = ok_paths(paths, "init_internal")[0].st
+        big = [a] + [bv(0, 8)] * (L1 - 1)
+        s.env["$bigkey"] = PyVec(big)
+        ex, paths = call(mf, IMPL + r"internal_insert_at\(", [page, bv(0, 64), Ref("$bigkey"), Struct("PageId", {0: ca})], s)
+        ps_ = [p for p in ok_paths(paths, "internal_insert_at") if isinstance(p.ret, Enum) and p.ret.variant == "Ok"]
+        if len(ps_) != 1:
+            raise Unsupported("building the nearly full internal page did not yield one successful path")
+        s = ps_[0].st
+        ex, paths = call(mf, IMPL + r"free_space\(", [page], s)
+        fr = ok_paths(paths, "free_space")
+        free = z3.simplify(fr[0].ret.fields[0])
+        if len(fr) != 1 or not z3.is_bv_value(free):
+            raise Unsupported("free_space is not a constant on the constructed page")
+        free = free.as_long()
+        failed, n, accepted, refused = [], 0, [], []
+
+        def read_back(stx, count):
+            states = [(stx, [])]
+            for i in range(count):
+                nxt = []
+                for sx, acc in states:
+                    exr, pr = call(mf, IMPL + r"internal_cell_key_and_right_child\(", [page, bv(i, 64)], sx)
+                    for q in ok_paths(pr, "internal_cell_key_and_right_child"):
+                        if not (isinstance(q.ret, Enum) and q.ret.variant == "Ok"):
+                            raise AssertionError("separator cell %d cannot be read back: %r" % (i, q.ret))
+                        tup = q.ret.fields[0]
+                        nxt.append((q.st, acc + [(buf_of(exr, q.st, tup.fields[0]).items, pid_val(tup.fields[1]))]))
+                states = nxt
+            return states
+        try:
+            for delta in tier_deltas:
+                L2 = free + delta - 9
+                if not (1 <= L2 < 128):
+                    raise Unsupported("boundary key length %d outside the 1-byte length prefix range" % L2)
+                newkey = [t] + [bv(0, 8)] * (L2 - 1)
+                for j in (0, 1):
+                    s2 = s.fork()
+                    s2.env["$newkey"] = PyVec(newkey)
+                    ex2, paths2 = call(mf, IMPL + r"internal_insert_at\(", [page, bv(j, 64), Ref("$newkey"), Struct("PageId", {0: cn})], s2)
+                    for p2 in ok_paths(paths2, "internal_insert_at (page nearly full)"):
+                        n += 1
+                        ok = isinstance(p2.ret, Enum) and p2.ret.variant == "Ok"
+                        (accepted if ok else refused).append(delta)
+                        want = [(big, ca)]
+                        if ok:
+                            want.insert(j, (newkey, cn))
+                        cnt = cell_count_of(mf, page, p2.st)
+                        if not ex2.entails(p2.pc, cnt == len(want)):
+                            failed.append("an insert into a nearly full internal page %s but the cell count is not %d" % ("succeeds" if ok else "is refused", len(want)))
+                            continue
+                        exl, pl = call(mf, IMPL + r"leftmost_child\(", [page], p2.st)
+                        for q in ok_paths(pl, "leftmost_child"):
+                            if not (isinstance(q.ret, Enum) and q.ret.variant == "Ok" and exl.entails(q.pc, pid_val(q.ret.fields[0]) == 7)):
+                                failed.append("an insert into a nearly full internal page changes the leftmost child")
+                        for s3, cells in read_back(p2.st, len(want)):
+                            for pos, ((kb, pv), (wk, wp)) in enumerate(zip(cells, want)):
+                                same = len(kb) == len(wk) and ex2.entails(s3.pc, z3.And([x == y for x, y in zip(kb, wk)] + [pv == wp]))
+                                if not same:
+                                    failed.append("an insert into a nearly full internal page (new cell = free space %+d bytes) %s and separator cell %d no longer "
+                                                  "reads back as stored" % (delta, "is accepted" if ok else "is refused", pos))
+        except AssertionError as e:
+            failed.append("insert into a nearly full internal page: " + str(e))
+        res = {"paths": n, "queries": call.queries, "solver_time_s": round(call.solver_time, 3),
+               "sample": ["internal page with one %d-byte separator (free gap %d bytes), new cell length = gap%s; accepted at %s, refused at %s"
+                          % (L1, free, "/".join("%+d" % d for d in tier_deltas), sorted(set(accepted)), sorted(set(refused)))],
+               "functions": ["index::btree::Page::{init_internal, free_space, internal_insert_at, shift_slots_right, internal_cell_key_and_right_child, leftmost_child}"]}
+        if failed:
+            res.update({"status": "fail", "failed": sorted({re.sub(r"\(new cell = free space [-+]\d+ bytes\) ", "", f) for f in failed}),
+                        "reason": "; ".join(sorted(set(failed)))[:400]})
+        else:
+            res["status"] = "pass"
+        return res
+    return run
+
+
+def alloc_model():
+    """Pager::allocate_page on the page-store model: hands out 6, 7, 8, ... (pages the store does not hold yet)."""
+    def m_allocate(ex, st, a, dst, callee):
+        n = st.env.get("$next_alloc", 6)
+        st.env["$next_alloc"] = n + 1
+        st.env["$store_%d" % n] = PyVec([bv(0, 8)] * PAGE)
+        return [(Enum("Ok", [page_id(n)]), [], None)]
+    return [(r"Pager::allocate_page$", m_allocate)]
+
+
+def run_split_insert(nfull, keylen):
+    """A root leaf that is full with `nfull` cells of `keylen`-byte keys (distinct symbolic first bytes); one more pair with a
+    symbolic distinct key goes in through the real BTree::insert, which has to split the leaf and grow a new root. Afterwards every
+    stored pair must be found by BTree::delete and a full cursor scan must return all pairs in key order."""
+    def run(mf, tier):
+        from ..vecmodel import VEC_MODELS
+        call.queries, call.solver_time, call.inlined = 0, 0.0, set()
+        models = alloc_model() + store_models() + VEC_MODELS
+        st = State()
+        ks = [z3.BitVec("k%d" % i, 8) for i in range(nfull)]
+        ps = [z3.BitVec("p%d" % i, 64) for i in range(nfull)]
+        t, pn = z3.BitVec("t", 8), z3.BitVec("p_new", 64)
+        for x, y in zip(ks, ks[1:]):
+            st.pc.append(z3.ULT(x, y))
+        st.pc += [t != k for k in ks]
+        page = new_page(st, "root")
+        ex, paths = call(mf, IMPL + r"init_leaf\(", [page], st)
+        s = ok_paths(paths, "init_leaf")[0].st
+        keys = [[k] + [bv(0, 8)] * (keylen - 1) for k in ks]
+        for i in range(nfull):
+            s.env["$fk%d" % i] = PyVec(keys[i])
+            ex, paths = call(mf, IMPL + r"leaf_insert_at\(", [page, bv(i, 64), Ref("$fk%d" % i), ps[i]], s)
+            okp = [p for p in ok_paths(paths, "leaf_insert_at") if isinstance(p.ret, Enum) and p.ret.variant == "Ok"]
+            if len(okp) != 1:
+                raise Unsupported("could not build the full leaf")
+            s = okp[0].st
+        s.env["$store_5"] = s.env["$buf_root"]
+        s.env["$tree"] = Struct("BTree", {0: page_id(5)})
+        newkey = [t] + [bv(0, 8)] * (keylen - 1)
+        s.env["$newkey"] = PyVec(newkey)
+        failed, n, splits = [], 0, 0
+        allpairs = list(zip(keys, ps)) + [(newkey, pn)]
+        try:
+            ex, paths = call(mf, TREE + r"insert\(_1: &mut BTree", [Ref("$tree"), Opaque("pager"), Ref("$newkey"), pn], s, extra_models=models, bound=24)
+            for p in ok_paths(paths, "BTree::insert (leaf split)"):
+                if not (isinstance(p.ret, Enum) and p.ret.variant == "Ok"):
+                    failed.append("BTree::insert into a full leaf fails: %r" % (p.ret,))
+                    continue
+                if p.st.env.get("$next_alloc", 6) > 6:
+                    splits += 1
+                # 1. every stored pair is found (and removed) by BTree::delete
+                for kb, pv in allpairs:
+                    s2 = p.st.fork()
+                    s2.env["$victim"] = PyVec(kb)
+                    ex2, dp = call(mf, r"^fn btree::<impl at [^>]*>::delete\(_1: &mut BTree", [Ref("$tree"), Opaque("pager"), Ref("$victim"), pv], s2,
+                                   extra_models=models, bound=24)
+                    for q in ok_paths(dp, "BTree::delete"):
+                        n += 1
+                        if not (isinstance(q.ret, Enum) and q.ret.variant == "Ok" and ex2.entails(q.pc, q.ret.fields[0] == TRUE)):
+                            m = ex2.model(q.pc)
+                            failed.append("after a leaf split BTree::delete does not find a stored pair (distinct keys), e.g. stored first bytes %s, inserted %s"
+                                          % ([m.eval(k, model_completion=True).as_long() for k in ks], m.eval(t, model_completion=True).as_long()))
+                # 2. a full scan returns all pairs in key order
+                s3 = p.st.fork()
+                s3.env["$from"] = PyVec([bv(0, 8)])
+                for s4, got, exhausted in scan(mf, s3, Ref("$tree"), Ref("$from"), nfull + 2, models):
+                    n += 1
+                    chk = Exec(mf.find(IMPL + r"cell_count\("), [], mf=mf)
+                    if not exhausted or len(got) != nfull + 1:
+                        failed.append("after a leaf split a full scan returns %d pairs instead of %d" % (len(got), nfull + 1))
+                        continue
+                    for (ka, _), (kb2, _) in zip(got, got[1:]):
+                        if not chk.entails(s4.pc, z3.ULT(ka[0], kb2[0])):
+                            failed.append("after a leaf split a scan does not return pairs in key order")
+                    for kb, pv in allpairs:
+                        if not chk.entails(s4.pc, z3.Or([z3.And(len(g[0]) == len(kb), g[0][0] == kb[0], g[1] == pv) for g in got])):
+                            failed.append("after a leaf split a scan misses a stored pair")
+                    call.queries += chk.queries
+        except AssertionError as e:
+            failed.append(str(e))
+        if not splits and not failed:
+            raise Unsupported("the insert did not split the leaf (vacuous)")
+        res = {"paths": n, "queries": call.queries, "solver_time_s": round(call.solver_time, 3),
+               "sample": ["root leaf full with %d cells of %d-byte keys (symbolic first byte, strictly increasing), new pair with a distinct symbolic key; "
+                          "%d returning insert paths split the leaf" % (nfull, keylen, splits)],
+               "functions": ["index::btree::BTree::{insert, insert_into_parent, delete, cursor_lower_bound}, Page::{rebuild_leaf, init_internal, internal_insert_at, "
+                             "internal_child_for_key, ...}, BTreeCursor::*; std Vec/slice/iterator calls through element-wise models (vecmodel.py)"]}
+        if failed:
+            res.update({"status": "fail", "failed": sorted({re.sub(r", e\.g\. .*$", "", f) for f in failed}), "reason": "; ".join(sorted(set(failed)))[:400],
+                        "witness_text": sorted(set(failed))[:3]})
+        else:
+            res["status"] = "pass"
+        return res
+    return run
+
+
 TARGETS = [
+    {"name": "c26_o8_q_e2_leaf_split_through_insert_3_plus_1", "crate": "nervusdb-storage", "run": run_split_insert(3, 2700)},
+    {"name": "c26_o2_q_e2_internal_insert_at_capacity_boundary", "crate": "nervusdb-storage", "run": run_capacity_boundary_internal([-3, -2, -1, 0, 1])},
+    {"name": "c26_o2_q_e2_insert_at_capacity_boundary", "crate": "nervusdb-storage", "run": run_capacity_boundary([-3, -2, -1, 0, 1])},
     {"name": "c26_o7_q_e2_insert_then_scan_2_pairs", "crate": "nervusdb-storage", "run": run_insert_scan(2)},
     {"name": "c26_o7_t_e2_insert_then_scan_3_pairs", "crate": "nervusdb-storage", "run": run_insert_scan(3)},
     {"name": "c26_o4_q_e2_descent_after_split_distinct_keys", "crate": "nervusdb-storage", "run": run_descent(True)},
